@@ -23,7 +23,7 @@ case_strategy = st.fixed_dictionaries({
     "kind": st.integers(0, 2),
     "type": st.integers(0, 5),
     "epochs": st.integers(1, 4),
-    "updates": st.sampled_from([0, 1, 3, 10, 40]),
+    "updates": st.sampled_from([0, 1, 3, 3, 10, 10, 40]),
     "shape": st.integers(0, 3),
     "fresh": st.integers(0, 15),
     "set": st.integers(0, 15),
